@@ -335,6 +335,11 @@ def _cut_contexts(X, tag):
     add('group', ('start', _ch(_seq(('group', X), c), ac, a)))
     add('skipgroup', ('start', _ch(_seq(('skipgroup', X), c), ac, a)))
     add('named-group', ('start', _ch(_seq(('named', 'x', ('group', X)), c), ('named', 'y', ('group', ac)))))
+    # a group is not a cut scope: the cut of a bracketed body still belongs to the closure iteration / optional around the group
+    # (an optional around something that "cannot fail" may only be dropped when no cut can escape from it)
+    add('group-in-closure-in-optional', ('start', _seq(('opt', ('closure', ('group', X))), a, c)))
+    add('group-in-optional-in-optional', ('start', _seq(('opt', ('opt', ('group', X))), a, c)))
+    add('group-in-closure', ('start', _seq(('closure', ('group', X)), a, c)))
     # rule bodies: the callee contains its cut
     add('rule', ('start', _ch(_seq(('call', 'r'), c), ac, a)), ('r', X))
     add('rule-in-closure', ('start', _seq(('closure', ('call', 'r')), ('closure', a), ('closure', c))), ('r', X))
